@@ -764,6 +764,11 @@ where
     }
 
     #[inline]
+    fn drop_span(&self, id: span::Id) {
+        self.as_ref().try_close(id);
+    }
+
+    #[inline]
     fn try_close(&self, id: span::Id) -> bool {
         self.as_ref().try_close(id)
     }
@@ -845,6 +850,11 @@ where
     #[inline]
     fn clone_span(&self, id: &span::Id) -> span::Id {
         self.as_ref().clone_span(id)
+    }
+
+    #[inline]
+    fn drop_span(&self, id: span::Id) {
+        self.as_ref().try_close(id);
     }
 
     #[inline]
